@@ -79,10 +79,19 @@ def job(prefix, group, codec, key, seq, api=0, finish=0, cb=0, rnd=(0,), ln=1, r
     name = "%s.%s.%s.%s%s%s%s.len%d.seq%s" % (prefix, nm, key, ("stream", "", "bulk")[api], ".finish" if finish else "", ".cb%d" % cb if cb else "",
                                               ".rnd%s" % "".join(str(x) for x in rnd) if tuple(rnd) != (0,) else "", ln, "_".join(str(x) for x in seq) or "none")
     return Job(name, group, "c03_lbc_session.c", fns, repo_sources=SRCS, replace_calls=rc, defines=defs,
-               unwind=72, object_bits=11, timeout=timeout, mem_gb=8, status="bounded",
+               unwind=72, object_bits=11, timeout=timeout, mem_gb=3, status="bounded",
                checks=DEFAULT_CHECKS + (["--memory-leak-check"] if leak and release else []),
                relevant=REL.get(prop),
                bound="%s; history %s%s is a harness constant; symbol length %d; all source data symbolic" % (what, list(seq), " + finish" if finish else "", ln))
+
+
+def dedupe(js):
+    seen, out = set(), []
+    for j in js:
+        if j.name not in seen:
+            seen.add(j.name)
+            out.append(j)
+    return out
 
 
 def subsets(n):
@@ -109,10 +118,10 @@ def c03_jobs(tier, seed, prop=None, prefix="ml", group_prefix="lbc_finish"):
         for m in subsets(n):
             variants = [(rng.choice((0, 2)), rng.choice(("inc", "dec", "rnd")), [rng.randrange(r) for _ in range(r)])]
             if tier != "quick":
-                variants = [(0, "inc", [0]), (2, "inc", [1, 0, 2, 1]), (0, "rnd", [rng.randrange(r) for _ in range(r)])]
+                variants = [(0, "inc", [0]), (2, "rnd", [rng.randrange(r) for _ in range(r)])]
             for api, order, rnd in variants:
                 js.append(job(prefix, "%s_ldpc" % group_prefix, codec, key, seq_of(m, n, order, rng), api=api, finish=1, rnd=rnd, prop=prop))
-    return js
+    return dedupe(js)
 
 
 def perms_with_dups(n, count, rng, dup=True):
@@ -139,7 +148,7 @@ def c04_jobs(tier, seed, prop=None, prefix="it", group_prefix="lbc_stream"):
         seqs = [list(range(n)), list(range(n - 1, -1, -1)), list(range(k, n)) + list(range(k))] + perms_with_dups(n, cnt, rng)
         for s in seqs:
             js.append(job(prefix, "%s_ldpc" % group_prefix, 3, key, s, api=0, finish=0, prop=prop))
-    return js
+    return dedupe(js)
 
 
 def cb_jobs(tier, seed, prop=None, prefix="cb", group_prefix="lbc_callbacks"):
@@ -159,7 +168,7 @@ def cb_jobs(tier, seed, prop=None, prefix="cb", group_prefix="lbc_callbacks"):
         for s in (list(range(k, n)), list(range(n - 1, k - 1, -1))):
             for cbv in (1, 2, 7):
                 js.append(job(prefix, "%s_ldpc" % group_prefix, 3, key, s, api=0, finish=1, cb=cbv, prop=prop))
-    return js
+    return dedupe(js)
 
 
 def release_jobs(tier, seed, prop=None, prefix="rel", group_prefix="lbc_release"):
@@ -177,7 +186,7 @@ def release_jobs(tier, seed, prop=None, prefix="rel", group_prefix="lbc_release"
                     if tier == "quick" and (cut + fin) % 2:
                         continue
                     js.append(job(prefix, "%s_ldpc" % group_prefix, 3, key, h[:cut], api=(0, 2)[(cut + fin) % 2] if cut else 0, finish=fin, cb=(0, 1, 2)[cut % 3], rnd=[cut % r, 1, 0], prop=prop))
-    return js
+    return dedupe(js)
 
 
 def p2d_jobs(tier, seed, prop=None, prefix="2d", group_prefix="2d_decoder"):
@@ -201,4 +210,4 @@ def p2d_jobs(tier, seed, prop=None, prefix="2d", group_prefix="2d_decoder"):
                           cb=rng.choice((0, 0, 1, 2)), rnd=[rng.randrange(a + b) for _ in range(a + b)], prop=prop))
         for s in perms_with_dups(n, 6 if tier == "quick" else 20, rng):
             js.append(job(prefix, "%s_stream" % group_prefix, 5, key, s, api=0, finish=0, prop=prop))
-    return js
+    return dedupe(js)
